@@ -11,6 +11,8 @@ open theorem covers: absent, or what a session left of the bucket means of `xs` 
 data file cut after any number of bytes and the index in any legitimate prior state -/
 def CacheReopenOK (p B : Nat) (xs : List Entry) (st : Store) : Prop :=
   (st.data = none ∧ st.index = none) ∨
+  -- cut off inside its own file header (a crash while it was created); the index file may be anything
+  fileOpenExisting st.data = .error (.err "UnexpectedEof") ∨
   (TailClean p (Spec.bucketMeans B (Spec.linMean p) xs) ∧
    (Spec.encode p (Spec.bucketMeans B (Spec.linMean p) xs)).length < 2^64 ∧
    ∃ n, st.data = some (cacheHdr B ++ (Spec.encode p (Spec.bucketMeans B (Spec.linMean p) xs)).take n) ∧
@@ -24,16 +26,33 @@ theorem cacheOpenOrCreate_correct (shdr sihdr : Bytes) (dir : Dir) (src : DataSe
     ∃ dir' c, cacheOpenOrCreate dir B src cb = (dir', .ok c) ∧ c.B = B ∧ c.d.p = src.p ∧ dir'.main = dir.main ∧
       (∀ B', B' ≠ B → dir'.cache B' = dir.cache B') ∧
       CacheInv (cacheHdr B) cacheIhdr (dir'.cache B) c xs := by
-  rcases hst with hfree | ⟨hc, hsize, n, hdata, hix⟩
+  rcases hst with hfree | heof | ⟨hc, hsize, n, hdata, hix⟩
   · obtain ⟨dir', c, hcreate, h⟩ := cacheCreate_correct shdr sihdr dir src xs B cb hsrc hv hB hB32 hH hfree
     refine ⟨dir', c, ?_, h⟩
-    unfold cacheOpenOrCreate cacheOpen
+    unfold cacheOpenOrCreate
     simp only [hfree.1, fileOpenExisting]
     exact hcreate
+  · -- torn inside its header: both files are removed, then the cache is created from the source
+    have hsrc' : DataInv shdr sihdr (dir.setCache B { dir.cache B with data := none, index := none }).main src xs := by
+      rw [Dir.main_setCache]; exact hsrc
+    have hfree' : ((dir.setCache B { dir.cache B with data := none, index := none }).cache B).data = none ∧
+        ((dir.setCache B { dir.cache B with data := none, index := none }).cache B).index = none := by
+      rw [Dir.cache_setCache_same]; exact ⟨rfl, rfl⟩
+    obtain ⟨dir', c, hcreate, hcB, hcp, hmain, hother, hinv⟩ :=
+      cacheCreate_correct shdr sihdr _ src xs B cb hsrc' hv hB hB32 hH hfree'
+    refine ⟨dir', c, ?_, hcB, hcp, by rw [hmain, Dir.main_setCache], ?_, hinv⟩
+    · unfold cacheOpenOrCreate
+      rw [heof]
+      exact hcreate
+    · intro B' hne
+      rw [hother B' hne, Dir.cache_setCache_other _ _ _ _ hne]
   · obtain ⟨dir', c, hopen, h⟩ := cacheOpen_correct shdr sihdr dir src xs B cb hsrc hv hB hB32 hH hc hsize n hdata hix
     refine ⟨dir', c, ?_, h⟩
+    have hfo : fileOpenExisting (dir.cache B).data = .ok (4 + (cacheUserHeader B).length, cacheUserHeader B) := by
+      rw [hdata]; exact outerHdr_open _ _ hH
     unfold cacheOpenOrCreate
-    rw [hopen]
+    rw [hfo]
+    exact hopen
 
 /-- every configured level is opened, repaired, caught up or created -/
 theorem openCaches_reopen (shdr sihdr : Bytes) (src : DataSess) (xs : List Entry) (cb : Option Bool)
@@ -160,7 +179,7 @@ theorem sessInvC_reopenOK (hdr ihdr' : Bytes) (dir : Dir) (s : Sess) (xs : List 
   intro B hB
   obtain ⟨c, hc, rfl⟩ := List.mem_map.mp hB
   obtain ⟨hcp, hci⟩ := hinv.caches c hc
-  right
+  right; right
   refine ⟨(hclean c hc).1, (hclean c hc).2, (Spec.encode s.d.p (Spec.bucketMeans c.B (Spec.linMean s.d.p) xs)).length, ?_, ?_⟩
   · rw [List.take_length, hci.data.data, hcp]
   · rw [hci.data.index, hcp]
